@@ -197,3 +197,11 @@ Theorem C06_request_path_shape :
    "return True"].
 Proof. repeat split; reflexivity. Qed.
 Print Assumptions C06_request_path_shape.
+
+(* ... and that match bit is what the regex engine and the converters compute on the route's own assembled
+   expression (C05): for every declared pattern the model accepts, every path *)
+Theorem C06_match_bit_is_the_engine : forall s path d, parse_pattern s = Ok (rd_pat d) ->
+  d_match (droute_for path d) =
+  match ConvertProofs.py_match_path (mmode_of (rd_mode d)) (rd_pat d) path with Some _ => true | None => false end.
+Proof. exact match_bit_is_the_engine. Qed.
+Print Assumptions C06_match_bit_is_the_engine.
